@@ -25,6 +25,7 @@ import (
 	"time"
 
 	"verif/harness/internal/pand"
+	"verif/harness/internal/vf"
 
 	"github.com/yandex/pandora/core"
 	"pgregory.net/rapid"
@@ -244,7 +245,7 @@ func fuzzVerdict(t *testing.T, err error) {
 
 // addCorpus seeds a fuzz target from /verif/corpus/c13/<name>/* (raw files); the
 // inline seeds are used when VERIF_ROOT is not set or the directory is empty.
-func addCorpus(f *testing.F, name string, add func(data []byte), inline ...string) {
+func addCorpus(f *testing.F, name string, add func(data []byte), inline ...string) int {
 	n := 0
 	if root := os.Getenv("VERIF_ROOT"); root != "" {
 		files, _ := filepath.Glob(filepath.Join(root, "corpus", "c13", name, "*"))
@@ -260,6 +261,25 @@ func addCorpus(f *testing.F, name string, add func(data []byte), inline ...strin
 		for _, s := range inline {
 			add([]byte(s))
 		}
+	}
+	return n
+}
+
+// withExcuse wraps a check for the rapid properties: the symptom of a listed known
+// finding (classified by the site of the panic / the hanging frame, never by the
+// input alone) is counted as excluded instead of failing the run, so that the
+// search continues past it. Everything else stays a failure.
+func withExcuse[C any](r *vf.Run, check func(C, *vf.Obs) error) func(C, *vf.Obs) error {
+	return func(c C, o *vf.Obs) error {
+		err := check(c, o)
+		if v, ok := err.(*violation); ok && v.id != "" && r.IsKnown(v.id) {
+			r.Excluded(v.id)
+			if o != nil {
+				o.Class("excused_known_finding")
+			}
+			return nil
+		}
+		return err
 	}
 }
 
@@ -296,11 +316,17 @@ func joinLines(l [][]byte) []byte { return bytes.Join(l, nil) }
 // mutate applies up to maxOps drawn mutations to data. pool holds other valid files
 // of the same format (splice donors). The returned op names are descriptive.
 func mutate(t *rapid.T, data []byte, pool [][]byte, maxOps int) ([]byte, []string) {
+	return mutateWith(t, data, pool, maxOps, hostileNumbers, true)
+}
+
+// mutateWith is mutate with the replacement numbers of the `digits` mutation given
+// and the 70 KB line mutation optional.
+func mutateWith(t *rapid.T, data []byte, pool [][]byte, maxOps int, numbers []string, longLines bool) ([]byte, []string) {
 	n := rapid.IntRange(1, maxOps).Draw(t, "mutations")
 	var ops []string
 	for i := 0; i < n; i++ {
 		var op string
-		data, op = mutateOnce(t, data, pool)
+		data, op = mutateOnce(t, data, pool, numbers, longLines)
 		ops = append(ops, op)
 	}
 	return data, ops
@@ -309,8 +335,11 @@ func mutate(t *rapid.T, data []byte, pool [][]byte, maxOps int) ([]byte, []strin
 var mutationKinds = []string{"truncate", "digits", "digits", "splice_token", "dup_line", "drop_line", "crlf", "append_garbage", "cut_range",
 	"splice_donor", "swap_lines", "set_byte", "no_final_newline", "long_line", "insert_blank", "repeat_all"}
 
-func mutateOnce(t *rapid.T, data []byte, pool [][]byte) ([]byte, string) {
+func mutateOnce(t *rapid.T, data []byte, pool [][]byte, numbers []string, longLines bool) ([]byte, string) {
 	kind := rapid.SampledFrom(mutationKinds).Draw(t, "mutation")
+	if kind == "long_line" && !longLines {
+		kind = "splice_token"
+	}
 	cp := append([]byte(nil), data...)
 	off := func(label string) int { return rapid.IntRange(0, len(cp)).Draw(t, label) }
 	insert := func(at int, ins []byte) []byte {
@@ -328,10 +357,10 @@ func mutateOnce(t *rapid.T, data []byte, pool [][]byte) ([]byte, string) {
 	case "digits":
 		locs := digitRun.FindAllIndex(cp, -1)
 		if len(locs) == 0 {
-			return insert(0, []byte(rapid.SampledFrom(hostileNumbers).Draw(t, "number")+" ")), "digits_prepended"
+			return insert(0, []byte(rapid.SampledFrom(numbers).Draw(t, "number")+" ")), "digits_prepended"
 		}
 		l := locs[rapid.IntRange(0, len(locs)-1).Draw(t, "which")]
-		num := rapid.SampledFrom(hostileNumbers).Draw(t, "number")
+		num := rapid.SampledFrom(numbers).Draw(t, "number")
 		return append(append(append([]byte(nil), cp[:l[0]]...), num...), cp[l[1]:]...), "digits=" + num
 	case "splice_token":
 		tok := rapid.SampledFrom(hostileTokens).Draw(t, "token")
